@@ -2564,7 +2564,16 @@ func (t *Topic) replyGetSub(sess *Session, asUid types.Uid, authLevel auth.Level
 							if user, err := store.Users.Get(asUid); err == nil && user != nil {
 								ownTags = user.Tags
 							}
-							restr, _, _ = stringSliceDelta(ownTags, masked)
+							// A term may occur more than once (repeated by the user, or equal to its rewritten
+							// form): stringSliceDelta would report the second occurrence as foreign.
+							sort.Strings(masked)
+							uniq := masked[:0]
+							for i, tag := range masked {
+								if i == 0 || tag != masked[i-1] {
+									uniq = append(uniq, tag)
+								}
+							}
+							restr, _, _ = stringSliceDelta(ownTags, uniq)
 						}
 
 						if len(restr) > 0 {
